@@ -41,6 +41,7 @@ import (
 	metav1 "k8s.io/apimachinery/pkg/apis/meta/v1"
 	"k8s.io/apimachinery/pkg/types"
 	quotav1 "k8s.io/apiserver/pkg/quota/v1"
+	apiresource "k8s.io/component-helpers/resource"
 	"k8s.io/klog/v2"
 	"k8s.io/kubernetes/pkg/scheduler/framework"
 	"k8s.io/utils/ptr"
@@ -68,7 +69,7 @@ var (
 	c19Nodes  []*corev1.Node
 )
 
-var c19NodeNames = []string{"n0", "n1"}
+var c19NodeNames = []string{"n0", "n1", "n2"}
 
 func c19Plugin(t *testing.T) (*Plugin, *fakeSharedLister) {
 	c19Once.Do(func() {
@@ -99,10 +100,13 @@ type c19Rsv struct {
 	gone bool                            // completed (Succeeded) and removed from the live cache
 }
 
-func c19GenRsv(r *kit.Rand, i int) *schedulingv1alpha1.Reservation {
+func c19GenRsv(r *kit.Rand, i int, nodeNames []string) *schedulingv1alpha1.Reservation {
 	alloc := corev1.ResourceList{
-		corev1.ResourceCPU:    resource.MustParse(kit.Pick(r, []string{"2", "4", "8", "16"})),
-		corev1.ResourceMemory: resource.MustParse(kit.Pick(r, []string{"4Gi", "8Gi", "16Gi", "17179869185"})),
+		corev1.ResourceCPU:    resource.MustParse(kit.Pick(r, []string{"500m", "2", "4", "8", "16", "64"})),
+		corev1.ResourceMemory: resource.MustParse(kit.Pick(r, []string{"1", "4Gi", "8Gi", "16Gi", "17179869185"})),
+	}
+	if r.Pct(10) {
+		delete(alloc, kit.Pick(r, []corev1.ResourceName{corev1.ResourceCPU, corev1.ResourceMemory})) // reserves one dimension only
 	}
 	if r.Pct(25) {
 		alloc["example.com/ext"] = resource.MustParse(kit.Pick(r, []string{"1", "2", "4"}))
@@ -119,11 +123,21 @@ func c19GenRsv(r *kit.Rand, i int) *schedulingv1alpha1.Reservation {
 			Owners:   []schedulingv1alpha1.ReservationOwner{{LabelSelector: &metav1.LabelSelector{MatchLabels: map[string]string{"app": kit.Pick(r, []string{"a", "a", "b"})}}}},
 		},
 	}
+	if r.Pct(15) {
+		// a second owner entry (entries are ORed): every pod of a namespace
+		res.Spec.Owners = append(res.Spec.Owners, schedulingv1alpha1.ReservationOwner{Object: &corev1.ObjectReference{Namespace: kit.Pick(r, []string{"default", "ns1"})}})
+	}
+	if r.Pct(8) {
+		res.Spec.Unschedulable = true
+	}
 	switch r.Weighted(20, 40, 40) {
 	case 1:
 		res.Spec.AllocatePolicy = schedulingv1alpha1.ReservationAllocatePolicyAligned
 	case 2:
 		res.Spec.AllocatePolicy = schedulingv1alpha1.ReservationAllocatePolicyRestricted
+		if r.Pct(30) {
+			_ = apiext.SetReservationRestrictedOptions(res, &apiext.ReservationRestrictedOptions{Resources: []corev1.ResourceName{kit.Pick(r, []corev1.ResourceName{corev1.ResourceCPU, corev1.ResourceMemory})}})
+		}
 	}
 	switch r.Weighted(20, 20, 60) {
 	case 1:
@@ -132,8 +146,12 @@ func c19GenRsv(r *kit.Rand, i int) *schedulingv1alpha1.Reservation {
 		res.Spec.AllocateOnce = ptr.To(false)
 	}
 	res.Status.Phase = schedulingv1alpha1.ReservationAvailable
-	res.Status.NodeName = kit.Pick(r, c19NodeNames)
+	res.Status.NodeName = kit.Pick(r, nodeNames)
 	res.Status.Allocatable = alloc.DeepCopy()
+	if q, ok := alloc[corev1.ResourceCPU]; ok && r.Pct(10) {
+		q.Add(resource.MustParse("1")) // the scheduler granted more than the template asked for (resized reservation)
+		res.Status.Allocatable[corev1.ResourceCPU] = q
+	}
 	return res
 }
 
@@ -168,7 +186,7 @@ type c19Pod struct {
 
 func (p *c19Pod) latest() *corev1.Pod { return p.versions[len(p.versions)-1] }
 
-func c19GenPod(r *kit.Rand, i int, freePorts []int32) *c19Pod {
+func c19GenPod(r *kit.Rand, i int, freePorts []int32, rsvNames []string) *c19Pod {
 	req := corev1.ResourceList{}
 	if r.Pct(90) {
 		req[corev1.ResourceCPU] = resource.MustParse(kit.Pick(r, []string{"1m", "500m", "1", "2", "3"}))
@@ -186,15 +204,30 @@ func c19GenPod(r *kit.Rand, i int, freePorts []int32) *c19Pod {
 	if len(freePorts) > 0 && r.Pct(25) {
 		// a host port nobody else uses on the node (the NodePorts plugin would refuse the pod otherwise)
 		hp := kit.Pick(r, freePorts)
-		ct.Ports = []corev1.ContainerPort{{HostPort: hp, ContainerPort: hp, Protocol: corev1.ProtocolTCP}}
+		cp := corev1.ContainerPort{HostPort: hp, ContainerPort: hp, Protocol: corev1.ProtocolTCP}
+		if r.Pct(25) {
+			cp.Protocol = corev1.ProtocolUDP
+		}
+		if r.Pct(20) {
+			cp.HostIP = "127.0.0.1"
+		}
+		ct.Ports = []corev1.ContainerPort{cp}
 	}
-	p := &corev1.Pod{ObjectMeta: metav1.ObjectMeta{Namespace: "default", Name: fmt.Sprintf("p%d", i), UID: types.UID(fmt.Sprintf("uid-p%d", i)), ResourceVersion: "1",
+	containers := []corev1.Container{ct}
+	if r.Pct(15) {
+		side := corev1.ResourceList{corev1.ResourceCPU: resource.MustParse("250m"), corev1.ResourceMemory: resource.MustParse("1Mi")}
+		containers = append(containers, corev1.Container{Name: "side", Resources: corev1.ResourceRequirements{Requests: side, Limits: side.DeepCopy()}})
+	}
+	p := &corev1.Pod{ObjectMeta: metav1.ObjectMeta{Namespace: kit.Pick(r, []string{"default", "default", "default", "default", "default", "ns1"}), Name: fmt.Sprintf("p%d", i), UID: types.UID(fmt.Sprintf("uid-p%d", i)), ResourceVersion: "1",
 		Labels: map[string]string{"app": kit.Pick(r, []string{"a", "a", "b", "c"})}, Annotations: map[string]string{}},
-		Spec: corev1.PodSpec{Containers: []corev1.Container{ct}}, Status: corev1.PodStatus{Phase: corev1.PodPending}}
+		Spec: corev1.PodSpec{Containers: containers}, Status: corev1.PodStatus{Phase: corev1.PodPending}}
 	if r.Pct(6) {
 		p.Labels[apiext.LabelReservationIgnored] = "true"
 	}
-	return &c19Pod{name: p.Name, pod: p, req: req}
+	if len(rsvNames) > 0 && r.Pct(12) {
+		_ = apiext.SetReservationAffinity(p, &apiext.ReservationAffinity{Name: kit.Pick(r, rsvNames)}) // must use this reservation or none
+	}
+	return &c19Pod{name: p.Name, pod: p, req: apiresource.PodRequests(p, apiresource.PodResourcesOptions{})}
 }
 
 func c19RL(rl corev1.ResourceList) string {
@@ -379,7 +412,7 @@ func TestVerifC19ReservationRestart(t *testing.T) {
 	pl, lister := c19Plugin(t)
 	ctx := context.TODO()
 	kit.Run(t, kit.Config{Property: "C19", Unit: "reservation-restart", Quick: 3000, Thorough: 50000,
-		Rule: "2-4 Available reservations (cpu/memory, 25% an extended resource, 40% host ports; default / Aligned / Restricted policy; allocate-once true / false / default) on 2 nodes in a real reservationCache and 15-50 operations of the real reservation Plugin: scheduling cycle of a new pod (BeforePreFilter, Filter, Reserve with nomination), PreBind + bind, unreserve, touch, terminate, delete, informer echo, a reservation completing; cut after a bind; in-flight pods unreserved; a fresh cache gets the reservations, then every surviving pod through the real pod event handler in random order with 20% duplicate adds and 20% no-op updates, then watch events after the snapshot; ReservationInfo ledgers compared; distinct = (#reservations, policy, allocate-once, pod outcome, #pods in the reservation, ports?, event kind); non-trivial = a reservation with at least two surviving assigned pods and at least one assignment that does not survive"},
+		Rule: "1-6 Available reservations (cpu and/or memory from 500m to 64 CPUs, 25% an extended resource, 40% host ports; default / Aligned / Restricted policy with or without restricted options; allocate-once true / false / default; unschedulable; resized allocatable; label or namespace owners) on 1-3 nodes in a real reservationCache and 15-50 operations of the real reservation Plugin: scheduling cycle of a new pod (BeforePreFilter, Filter, Reserve with nomination), PreBind + bind, unreserve, touch, terminate, delete, informer echo, a reservation completing; cut after a bind; in-flight pods unreserved; a fresh cache gets the reservations, then every surviving pod through the real pod event handler in random order with 20% duplicate adds and 20% no-op updates, then watch events after the snapshot; ReservationInfo ledgers compared; distinct = (#reservations, policy, allocate-once, pod outcome, #pods in the reservation, ports?, event kind); non-trivial = a reservation with at least two surviving assigned pods and at least one assignment that does not survive"},
 		func(c *kit.Case) {
 			r := c.R
 			cacheL := newReservationCache(nil)
@@ -388,8 +421,9 @@ func TestVerifC19ReservationRestart(t *testing.T) {
 			rhL := &reservationEventHandler{cache: cacheL, rrNominator: nmL}
 			phL := &podEventHandler{cache: cacheL, nominator: nmL}
 			var rsvs []*c19Rsv
-			for i, n := 0, r.Range(2, 4); i < n; i++ {
-				res := c19GenRsv(r, i)
+			nodeNames := c19NodeNames[:kit.Pick(r, []int{1, 2, 2, 2, 3, 3})]
+			for i, n := 0, kit.Pick(r, []int{1, 2, 2, 3, 3, 4, 4, 5, 6}); i < n; i++ {
+				res := c19GenRsv(r, i, nodeNames)
 				rsvs = append(rsvs, &c19Rsv{obj: res})
 				rhL.OnAdd(res, true)
 				c.Op("reservation %s(%s) on %s reserves %s policy=%q allocateOnce=%v ports=%d owners app=%s", res.Name, res.UID, res.Status.NodeName, c19RL(res.Status.Allocatable), res.Spec.AllocatePolicy,
@@ -424,7 +458,7 @@ func TestVerifC19ReservationRestart(t *testing.T) {
 				*lister = *newFakeSharedLister(snapPods, c19Nodes, false)
 			}
 			schedule := func() *c19Pod {
-				node := kit.Pick(r, c19NodeNames)
+				node := kit.Pick(r, nodeNames)
 				var freePorts []int32
 				for _, hp := range []int32{8080, 8081, 9090} {
 					used := false
@@ -443,7 +477,11 @@ func TestVerifC19ReservationRestart(t *testing.T) {
 						freePorts = append(freePorts, hp)
 					}
 				}
-				p := c19GenPod(r, len(pods), freePorts)
+				var rsvNames []string
+				for _, x := range rsvs {
+					rsvNames = append(rsvNames, x.obj.Name)
+				}
+				p := c19GenPod(r, len(pods), freePorts, rsvNames)
 				pods = append(pods, p)
 				refreshSnapshot()
 				cs := framework.NewCycleState()
@@ -555,6 +593,9 @@ func TestVerifC19ReservationRestart(t *testing.T) {
 				c.Count("deleted", 1)
 			}
 			nops := r.Range(15, 50)
+			if r.Pct(10) {
+				nops = r.Range(50, 100)
+			}
 			for op := 0; op < nops; op++ {
 				switch r.Weighted(44, 10, 6, 12, 8, 8, 8, 4) {
 				case 0:
@@ -589,7 +630,14 @@ func TestVerifC19ReservationRestart(t *testing.T) {
 					}
 				case 4:
 					if p := pick(func(p *c19Pod) bool { return p.state == c19Bound }); p != nil {
-						next(p, func(nv *corev1.Pod) { nv.Labels["touched"] = nv.ResourceVersion; nv.Status.Phase = corev1.PodRunning })
+						next(p, func(nv *corev1.Pod) {
+							nv.Labels["touched"] = nv.ResourceVersion
+							nv.Status.Phase = corev1.PodRunning
+							if r.Pct(12) && nv.DeletionTimestamp == nil {
+								ts := metav1.Unix(1700000000, 0) // terminating: still runs, still uses its reservation
+								nv.DeletionTimestamp = &ts
+							}
+						})
 						c.Op("api: touch %s -> version %d", p.name, len(p.versions))
 					}
 				case 5:
@@ -612,7 +660,7 @@ func TestVerifC19ReservationRestart(t *testing.T) {
 						x := kit.Pick(r, cand)
 						done := x.obj.DeepCopy()
 						done.ResourceVersion += "1"
-						done.Status.Phase = schedulingv1alpha1.ReservationSucceeded
+						done.Status.Phase = kit.Pick(r, []schedulingv1alpha1.ReservationPhase{schedulingv1alpha1.ReservationSucceeded, schedulingv1alpha1.ReservationSucceeded, schedulingv1alpha1.ReservationFailed})
 						rhL.OnUpdate(x.obj, done)
 						cacheL.DeleteReservation(x.obj) // frameworkext's reservation handler: available -> terminated
 						x.obj, x.gone = done, true
